@@ -116,8 +116,9 @@ def decOf (s : List Char) : Dec :=
 
 def Dec.signed (d : Dec) : Int := if d.neg then -(d.m : Int) else d.m
 
+/-- the value times `10^(-emin)`, an integer when `emin ≤ d.e`: the common-denominator form used to compare -/
 def Dec.scaled (d : Dec) (emin : Int) : Int :=
-  let v : Int := d.m * 10 ^ (d.e - emin).toNat
+  let v : Int := ((d.m * 10 ^ (d.e - emin).toNat : Nat) : Int)
   if d.neg then -v else v
 
 /-- number of decimal digits (0 for 0) -/
@@ -126,11 +127,15 @@ def numDigits (n : Nat) : Nat := if n = 0 then 0 else (Nat.toDigits 10 n).length
 /-- position of the leading digit: a non-zero `m · 10^e` lies in `[10^(rank-1), 10^rank)` -/
 def Dec.rank (d : Dec) : Int := (numDigits d.m : Int) + d.e
 
-/-- exact comparison of the denoted values.  Equal exponents (integers in particular): compare the signed
-mantissas.  Otherwise: sign first, then the position of the leading digit, and only for equal positions the
-mantissas brought to a common exponent (the gap is then bounded by the token lengths, so no huge power is built). -/
+/-- exact comparison of the denoted values `± m · 10^e`.  Equal exponents (integers in particular): compare the signed
+mantissas.  Exponents at most 4096 apart (every pair of printed doubles): bring both to the smaller exponent and
+compare the integers.  Beyond that (only adversarial strings): sign, then position of the leading digit, so that no
+astronomically large power is ever built. -/
 def decCmp (a b : Dec) : Ordering :=
   if a.e = b.e then compare a.signed b.signed
+  else if (a.e - b.e).natAbs ≤ 4096 then
+    let emin := if a.e ≤ b.e then a.e else b.e
+    compare (a.scaled emin) (b.scaled emin)
   else
     let sa : Int := if a.m = 0 then 0 else if a.neg then -1 else 1
     let sb : Int := if b.m = 0 then 0 else if b.neg then -1 else 1
@@ -194,6 +199,20 @@ def sortBy (le : α → α → Bool) (l : List α) : List α :=
 
 /-- `natural_sort(file_list)` -/
 def natSort (l : List (List Char)) : List (List Char) := sortBy natLe l
+
+/-! ### `_checkpoint_path_step` -/
+
+/-- the last number token, if any -/
+def lastNum : List Tok → Option (List Char)
+  | [] => none
+  | .num s :: r => (lastNum r).orElse (fun _ => some s)
+  | .text _ :: r => lastNum r
+
+/-- `_checkpoint_path_step(path)`: the split pieces are walked from the end and the first one that is a number is
+converted — the LAST number of the whole path -/
+def pathStepTok (path : List Char) : Option (List Char) := lastNum (tokens path)
+
+def pathStep (path : List Char) : Option Dec := (pathStepTok path).map decOf
 
 /-! ### printed step names -/
 
